@@ -31,6 +31,7 @@ func c10Reconciler(cli *symclient.Client) *RolloutReconciler {
 // VerifC10_Dispatch: the special cases are recognised in the documented order and each does what it promises.
 func VerifC10_Dispatch() {
 	vSimple = true
+	vKindChoice = true
 	n := verifrt.Concrete(verifrt.IntRange("nSteps", 1, 2))
 	cur := verifrt.Concrete(verifrt.IntRange("st.currentStepIndex", 1, n))
 	blueGreen := verifrt.Bool("blueGreen")
@@ -62,7 +63,7 @@ func VerifC10_Dispatch() {
 
 	// the specification of the dispatch, restated from the property
 	revisionChanged := c.Workload.CanaryRevision != r.Status.GetCanaryRevision()
-	inBatch := !r.Spec.Strategy.HasTrafficRoutings() && r.Spec.WorkloadRef.Kind == "CloneSet" && r.Annotations[v1alpha1.RollbackInBatchAnnotation] == "true"
+	inBatch := !r.Spec.Strategy.HasTrafficRoutings() && (r.Spec.WorkloadRef.Kind == "CloneSet" || r.Spec.WorkloadRef.Kind == "StatefulSet") && r.Annotations[v1alpha1.RollbackInBatchAnnotation] == "true"
 	rollbackDirectly := c.Workload.IsInRollback && revisionChanged && !inBatch
 	rollbackInBatches := c.Workload.IsInRollback && revisionChanged && inBatch
 	superseded := revisionChanged && !c.Workload.IsInRollback
